@@ -243,6 +243,69 @@ func c01Directed(r *hx.Run, w *W, ps *plans, i int, t int64) {
 	w.Clock.Advance(t + 1)
 }
 
+// c01DirectedLookup: a request is held between the dispatcher lookup and the entry lookup while the
+// entry expires and another request becomes the fetcher
+func c01DirectedLookup(r *hx.Run, w *W, ps *plans, i int, t int64) {
+	uri := fmt.Sprintf("/c01e/%d/%d", r.Seed, i)
+	key := "GET c01.example " + uri
+	gate := make(chan struct{})
+	var once sync.Once
+	release := func() { once.Do(func() { close(gate) }) }
+	defer release()
+	ps.set(uri, &plan{Seq: []ans{{Kind: "cacheable", T: t}}, Gate: func(f *hx.Fetch) <-chan struct{} {
+		if f.Nth == 1 {
+			return nil
+		}
+		return gate
+	}})
+	defer ps.del(uri)
+	rq := hx.Req{Addr: w.Addr, Host: "c01.example", URI: uri}
+	first := w.Cl.Do(rq)
+	if first.Label != "fetching" {
+		r.Inconclusive("C01 directed lookup: first request not a fetch")
+		return
+	}
+	overBefore := len(w.Farm.Overlaps())
+	hold := w.Pts.HoldNext("disp.got")
+	ch1 := make(chan *hx.Result, 1)
+	go func() { ch1 <- w.Cl.Do(rq) }()
+	if !hold.WaitArrived(10 * time.Second) {
+		w.Pts.Disarm(hold)
+		r.Inconclusive("C01 directed lookup: request not held at disp.got")
+		<-ch1
+		return
+	}
+	w.Clock.Advance(t + 1)
+	ch2 := make(chan *hx.Result, 1)
+	go func() { ch2 <- w.Cl.Do(rq) }()
+	if !hx.WaitUntil(10*time.Second, func() bool { return w.Farm.InflightKey(key) == 1 }) {
+		hold.Release()
+		r.Inconclusive("C01 directed lookup: second request not at origin")
+		return
+	}
+	regBefore := w.Pts.Count("get.registered")
+	hold.Release()
+	// the held request must now wait behind the fetch in flight (or be answered); it must not fetch
+	hx.WaitUntil(10*time.Second, func() bool {
+		return w.Pts.Count("get.registered") > regBefore || w.Farm.InflightKey(key) >= 2 || len(ch1) > 0
+	})
+	maxIn := w.Farm.MaxInflight(key)
+	release()
+	r1, r2 := <-ch1, <-ch2
+	r.Eval(1)
+	r.Add("directed_lookup_schedules", 1)
+	r.Distinct(fmt.Sprintf("directed_lookup T=%d", t))
+	cs := map[string]interface{}{"uri": uri, "T": t, "schedule": "R1 held at disp.got (entry fresh); clock += T+1; R2 becomes fetcher (held at origin); R1 released"}
+	if over := w.Farm.Overlaps()[overBefore:]; len(over) > 0 {
+		r.Violate("concurrent_upstream_fetches", map[string]string{"mode": "directed_lookup_expiry"}, fmt.Sprintf("two fetches in flight (max %d): R1 label=%s R2 label=%s", maxIn, r1.Label, r2.Label), map[string]interface{}{"R1": r1.Brief(), "R2": r2.Brief()}, cs)
+		return
+	}
+	if r2.Label != "fetching" || r1.Label != "hit" || r1.FetchID != r2.FetchID {
+		r.Violate("directed_waiter_not_served_from_fetch", map[string]string{"mode": "directed_lookup_expiry"}, "the request that looked the entry up before expiry was not answered from the refetch", map[string]interface{}{"R1": r1.Brief(), "R2": r2.Brief()}, cs)
+	}
+	w.Clock.Advance(t + 1)
+}
+
 // c01Porcupine: staggered clients and a concurrent clock advancer, history checked per key
 func c01Porcupine(r *hx.Run, w *W, ps *plans, rnd *rand.Rand, n int) {
 	for hi := 0; hi < n && !r.TooMany(); hi++ {
@@ -337,6 +400,9 @@ func c01(r *hx.Run) {
 	nd := r.Pick(40, 1000)
 	for i := 0; i < nd && !r.TooMany(); i++ {
 		c01Directed(r, w, ps, i, []int64{1, 2, 5, 60}[i%4])
+	}
+	for i := 0; i < r.Pick(20, 500) && !r.TooMany(); i++ {
+		c01DirectedLookup(r, w, ps, i, []int64{1, 3, 60}[i%3])
 	}
 	w.Pts.SetJitter(c01JitterPoints, 200)
 	c01Porcupine(r, w, ps, rnd, r.Pick(60, 1500))
